@@ -6,6 +6,7 @@ Scenario tree, built once through the real client API on 3 real storage servers:
                                its write-cap inside sub2), d3 (dir, write-cap stored inside sub2)
                   -> a_sub2  = WRITE-cap of the same sub2 (sorts, and is unpacked, before rolink)
                   -> locked  = sub3 (dir) linked with metadata no-write=true, then re-pointed without metadata
+    sub additionally holds sc.txt (mutable) and sd (dir), linked through POST ?t=set_children with rw_uri bodies
                   -> imm     = immutable directory -> h.txt (CHK)
 Read-only entry points: every directory / mutable file through its read-cap and verify-cap, plus
 every path from the root write-cap that passes through `rolink` or `imm`.
@@ -76,17 +77,30 @@ def build(seed):
         imm = w(nm.create_immutable_directory({u"h.txt": (nm.create_from_cap(h.get_uri()), {})}))
         w(root.set_uri(u"imm", None, imm.get_uri()))
         g.quiesce()
+        # two children of `sub` are linked THROUGH THE WEB API (POST ?t=set_children with the body shape that
+        # GET ?t=json emits, rw_uri included): what that handler stores must not show the write-caps to a
+        # read-cap holder either
+        sc = w(nm.create_mutable_file(MutableData(b"mutable via set_children")))
+        sd = w(nm.create_new_mutable_directory())
+        body = json.dumps({
+            "sc.txt": ["filenode", {"rw_uri": sc.get_uri().decode(), "ro_uri": sc.get_readonly_uri().decode(), "metadata": {"note": "x"}}],
+            "sd": ["dirnode", {"rw_uri": sd.get_uri().decode(), "ro_uri": sd.get_readonly_uri().decode(), "metadata": {}}],
+        }).encode()
+        r = lib_web.Web(g).request("POST", "/uri/" + q(sub.get_uri().decode()) + "?t=set_children", body, {})
+        g.quiesce()
+        assert r is not None and r[0] == 200, ("set_children through the web API failed in the C41 scenario builder", r and r[0], r and r[2][:200])
         caps = {
             "root": root.get_uri(), "root_ro": root.get_readonly_uri(), "root_v": root.get_verify_cap().to_string(),
             "sub": sub.get_uri(), "sub_ro": sub.get_readonly_uri(),
             "sub2": sub2.get_uri(), "sub2_ro": sub2.get_readonly_uri(), "sub2_v": sub2.get_verify_cap().to_string(),
             "d3": d3.get_uri(), "m": m.get_uri(), "m_ro": m.get_readonly_uri(), "m_v": m.get_verify_cap().to_string(),
             "mm": mm.get_uri(), "mm_ro": mm.get_readonly_uri(), "imm": imm.get_uri(), "f": f.get_uri(), "sub3": sub3.get_uri(),
+            "sc": sc.get_uri(), "sd": sd.get_uri(),
         }
         _SCN.update(snap=g.save_disk(), caps={k: v.decode() for k, v in caps.items()})
         # secrets that must never appear in a response obtained through a read-only entry point
         secrets = []
-        for k in ("root", "sub", "sub2", "d3", "m", "mm", "sub3"):
+        for k in ("root", "sub", "sub2", "d3", "m", "mm", "sub3", "sc", "sd"):
             u = tahoe_uri.from_string(caps[k])
             inner = u.get_filenode_cap() if hasattr(u, "get_filenode_cap") else u
             from allmydata.util import base32
